@@ -20,6 +20,13 @@ The translated fragment (anything else raises NotTranslatable - never silently s
                `x & (2^k-1)` on a possibly negative int is `x mod 2^k`; `~x` is `-x-1`; floats whose only uses are
                comparisons, `int()` and one division are exact rationals (`Q`), literals read as decimals.
 
+Added later (DESIGN 11.7 has the full list): `while` loops (fuel-recursive definitions), `break` / `continue`, strings and ASCII
+byte strings as `List Char`, exceptions as `Option` / `Except` with the raising call bound before its statement, `try … except X:
+raise Y`, `with <registered wrapper>`, closures inlined with their cell values, comprehensions, `enumerate`, value-`or` on optional
+values, per-target desugarings (`desugar=True`), registered mutators / attribute stores, per-iteration random draws, and the
+*safety companions* (`safe=True`: `<name>_safe : Bool`, false where a division has a zero divisor or - `safe_index=True` - a
+totalised subscript is out of range).  In-place updates of an argument are outside the fragment.
+
 A target whose source is outside the fragment (or whose function is gone / decorated) is reported in UNAVAILABLE
 and its generated definition is an alias of the model function: the differential correspondence is then the tie
 that remains for it (same policy as for the finite tables, DESIGN 11.4).
